@@ -529,3 +529,70 @@ func checkPayRouting(c *Ctx, rule string) {
 	wk.Run()
 	c.Check(d == "" && n >= 2 && !wk.Aborted, rule, "pay-routing", p.Pos(pay.Pos()), "signal ⇔ ante/blinds collection; backend otherwise", "pay routing: "+d)
 }
+
+// checkHandStateSync: the hand's current state (the one every action is validated against and applied to)
+// is replaced synchronously, in the goroutine of the caller whose action produced the new state and before
+// that call returns — never by the asynchronous queue consumer. Callers serialised by the engine mutex
+// therefore always validate against the state left by the previous accepted action.
+func checkHandStateSync(c *Ctx, rule string) {
+	p := c.P
+	gameT := p.singleImpl("", "Game")
+	if gameT == nil {
+		c.Bad(rule, "hand-state-sync", "-", "hand wrapper not found")
+		return
+	}
+	upd := p.Method(gameT, "updateGameState")
+	if upd == nil {
+		c.Bad(rule, "hand-state-sync", "-", "hand-side update function not found")
+		return
+	}
+	// sole writer, unconditional
+	nW := 0
+	for _, f := range p.Funcs {
+		if !inModule(p, f) {
+			continue
+		}
+		for _, ss := range p.Stores([]*ssa.Function{f}) {
+			if ss.Owner != "game" || ss.Field != "gs" {
+				continue
+			}
+			nW++
+			v := ss.Val.Strip()
+			ok := f == upd && len(p.Guards(ss.Instr)) == 0 && v.Kind == "call" && len(v.Args) >= 2 && symIsParam(v.Args[len(v.Args)-1], upd.Params[1])
+			c.Check(ok, rule, "hand-state-sync:writer:"+fnName(f), p.InstrPos(ss.Instr), "current hand state ← clone of the new state, unconditionally, in the update function",
+				"the hand's current state is written by "+fnName(f)+" (or only on some paths): an action arriving before that write is validated against the state before the previous action")
+		}
+	}
+	if nW == 0 {
+		c.Bad(rule, "hand-state-sync:writer", p.Pos(upd.Pos()), "the hand's current state is never replaced")
+	}
+	// every use of the update function is a plain synchronous call
+	nCalls, async := 0, ""
+	for _, f := range p.Funcs {
+		if !inModule(p, f) {
+			continue
+		}
+		for _, b := range f.Blocks {
+			for _, in := range b.Instrs {
+				// the method taken as a value (a bound-method closure) escapes this rule's view of when it runs
+				for _, op := range in.Operands(nil) {
+					if mc, isMC := (*op).(*ssa.MakeClosure); isMC {
+						if fn, _ := mc.Fn.(*ssa.Function); fn != nil && fn.Synthetic != "" && fn.Name() == upd.Name()+"$bound" {
+							async = p.InstrPos(in)
+						}
+					}
+				}
+				ci, ok := in.(ssa.CallInstruction)
+				if !ok || ci.Common().StaticCallee() != upd {
+					continue
+				}
+				nCalls++
+				if _, isCall := in.(*ssa.Call); !isCall {
+					async = p.InstrPos(in)
+				}
+			}
+		}
+	}
+	c.Check(nCalls > 0 && async == "", rule, "hand-state-sync:called-synchronously", p.Pos(upd.Pos()), fmt.Sprintf("%d call sites, all plain calls", nCalls),
+		"the update function is started asynchronously / deferred / passed as a value at "+async)
+}
